@@ -231,9 +231,9 @@ class NoteData:
                 push_measure(list(measure))
                 last_measure = m
 
-            # if there were no notes at all, write a blank measure
-            if last_measure == -1:
-                push_measure()
+        # if there were no notes at all, write a blank measure
+        if last_player == -1:
+            push_measure()
 
         return cls(notedata.getvalue())
 
